@@ -178,6 +178,16 @@ var zzC19Corpus = []string{
 	/* 22 */ "<col span=\"2\"><col>",
 	/* 23 */ "<caption>c</caption><tr><td>1</td></tr>",
 	/* 24 */ "<thing>not a table element</thing><p>x</p>",
+	// every table-scoped element as the root of a fragment
+	/* 25 */ "<colgroup><col span=\"2\" :class=\"c\"><col></colgroup>",
+	/* 26 */ "---\nk: v\n---\n<COLGROUP span=\"2\"></COLGROUP>",
+	/* 27 */ "<th scope=\"col\">h</th><th>i</th>",
+	/* 28 */ "<tfoot><tr><td>f</td></tr></tfoot>",
+	/* 29 */ "<tbody v-for=\"g in groups\"><tr><td>{{ g }}</td></tr></tbody>",
+	// preformatted text inside child elements of <pre>, with leading / trailing newlines
+	/* 30 */ "<pre><code>\nfunc main() {\n\tgo()\n}\n</code></pre>",
+	/* 31 */ "<pre>\n\nfirst line after a blank one</pre><pre><span>\n x</span>\n<b>y\n</b></pre>",
+	/* 32 */ "<div><textarea>\n\n two</textarea></div>",
 }
 
 func zzSig(nodes []*html.Node) string {
